@@ -451,12 +451,18 @@ def build_image(p, plan):
             return defer.succeed(None)
     ref = Direct()
     cls = layout.WriteBucketProxy if p["version"] == 1 else layout.WriteBucketProxy_v2
-    w = cls(ref, FakeServer(), p["datasize"], p["blocksize"], p["numsegs"], p["nsh"], p["uebsize"], batch_size=100)
-    for c in plan:
-        call_put(w, c)
-    w.close()
-    settle()
-    return bytes(ref.buf)
+    # the reader is judged against whatever image is stored (the Spec's reader operators are applied to the image
+    # itself), so a writer that misbehaves here must not stop the run: the write traces are there to flag it
+    try:
+        w = cls(ref, FakeServer(), p["datasize"], p["blocksize"], p["numsegs"], p["nsh"], p["uebsize"], batch_size=100)
+        for c in plan:
+            call_put(w, c)
+        w.close()
+        settle()
+    except Exception:
+        pass
+    img = bytes(ref.buf)
+    return img if len(img) >= 0x44 else img + b"\x00" * (0x44 - len(img))
 
 
 def damage(rng, img, p):
@@ -495,7 +501,11 @@ def damage(rng, img, p):
 def read_session(ss, idx, rng, quick):
     p = make_params(rng, quick)
     plan = field_plan(p, rng)
-    kind, img = damage(rng, build_image(p, plan), p)
+    img0 = build_image(p, plan)
+    try:
+        kind, img = damage(rng, img0, p)
+    except Exception:
+        kind, img = "none", img0          # an image the real writer got wrong: read it as it is
     si = hashlib.sha256(b"wp-rd-%d" % idx).digest()[:16]
     fss = FoolscapStorageServer(ss)
     already, writers = fss.remote_allocate_buckets(si, b"r" * 32, b"c" * 32, [0], len(img), Canary())
